@@ -4,7 +4,7 @@ import json, os
 V = os.path.dirname(os.path.dirname(os.path.abspath(__file__)))
 
 P = {
- "C01": dict(tech="differential round-trip monitor (generator -> repo writer -> repo reader and -> independent decoder written from the format specifications)",
+ "C01": dict(tech="differential round-trip monitor (generator -> repo writer -> repo reader and -> independent decoder written from the format specifications); conversions into sibling targets of one stem at the same time",
              text="Runtime monitoring: generated tile sets (sparse/dense, zoom gaps, 256-grid and level borders, duplicates, payload sizes around 1000 bytes, > 16384 tiles) are written with the repo's writers to all five formats and every accepted (format, compression) pair; the result is read back through the repo's reader (lookups over a superset of coordinates + streams of the advertised level boxes) and through an independent decoder; both must give exactly the source mapping and declaration. Held on the generated executions only.",
              note="Trusted: the independent decoders (harness/src/codec), brotli/flate2/rusqlite crates. MBTiles only with its four legal pairs, PMTiles with its five tile types.", ref="4/C01"),
  "C02": dict(tech="differential monitor stream-vs-lookups over a zoo of sources (5 readers x own/foreign encodings, converting reader, every pipeline operation and nestings) x exhaustive small boxes + sampled border boxes, on single- and multi-threaded runtimes; TSan flavour and >64 MiB blocks in thorough",
@@ -13,7 +13,7 @@ P = {
  "C13": dict(tech="history monitor at the client boundary (solo results vs concurrent results, offset-encoding file content, in-flight counter); TSan / Miri flavours in thorough",
              text="Runtime monitoring: 2..16 OS threads (own runtimes) or tokio tasks (16 workers) issue pre-planned read_range / get_tile_data calls on one shared DataReaderFile / versatiles / pmtiles / tar reader; every result is compared with the same call executed alone. Position-dependent contents make a wrong result name the call it was mixed up with. Overlap actually achieved is measured.",
              note="Interleavings are those the OS scheduler produced (max in-flight reported), not all.", ref="4/C13"),
- "C14": dict(tech="schedule-forcing monitor: turnstile callbacks force all n! completion orders (n<=5), adversarial delays for long streams; payloads embed their coordinate; TSan / Miri flavours in thorough",
+ "C14": dict(tech="schedule-forcing monitor: turnstile callbacks force all n! completion orders (n<=5), adversarial delays for long streams; payloads embed their coordinate; inputs from ready vectors, Pending sources and stacked parallel stages; TSan / Miri flavours in thorough",
              text="Runtime monitoring: map_blob_parallel, filter_map_blob_parallel and from_coord_iter_parallel are driven with every completion order for up to 5 items (all retain masks for n<=4), adversarial delay patterns for 0..10^4 items on 2..16 workers, and buffered / sequential consumers with 7 buffer sizes; the output multiset must be exactly {(coordinate, f(input))}.",
              note="Completion order is the order in which the callbacks returned. Exhaustive only for n<=5.", ref="4/C14"),
  "C15": dict(tech="reference-model monitor (64-bit set model exhaustive z<=3 incl. all ordered pairs; interval/counting model sampled to z31; independent Mercator model with tolerance band); Miri flavour in thorough",
@@ -25,13 +25,13 @@ P = {
  "C18": dict(tech="generator + renderer round trip monitor over syntax trees (whitespace / quoting / list-layout variants), certain-invalid mutations, factory rejections",
              text="Runtime monitoring: random syntax trees (depth<=4) are rendered with four whitespace/quoting styles; parse_vpl(render(t)) must equal t (through the `verif` re-export). One certain syntax error injected into a valid text, unknown operations, missing and mistyped parameters must be rejected with an error, never accepted, never a panic.",
              note="Documented syntax = help.md + the value forms named in the property. Empty quoted strings / empty lists are not generated. Repeated keys must retain all values in order.", ref="4/C18"),
- "C20": dict(tech="history monitor against a map model (capacities 1..64, 10^3..10^5 operations, observable state from Debug + return values); Miri flavour in thorough",
+ "C20": dict(tech="history monitor against a map model (capacities 1..64, 10^3..10^5 operations, observable state from Debug + return values, keys whose Hash is coarser than their Eq); Miri flavour in thorough",
              text="Runtime monitoring: random add / get / get_or_set(Ok|Err) histories are applied to LimitedCache<u64,u64>; after every operation length<=max_length, values returned were stored under that key, read-your-write holds, loader errors are propagated without side effects, and the most recently used entry survives the next eviction (capacity >= 2).",
              note="Evictions are inferred from the observable length; 'just used' = most recent hit or insertion.", ref="4/C20"),
 }
 
 P.update({
- "C03": dict(tech="coverage monitor over the source zoo: every tile obtained by lookups on a probe set or by streams over widened boxes is tested against the advertised pyramid; exact level boxes for mbtiles / pmtiles / tar / directory (own and foreign encodings)",
+ "C03": dict(tech="coverage monitor over the source zoo: every tile obtained by lookups on a probe set or by streams over widened boxes is tested against the advertised pyramid; exact level boxes for mbtiles / pmtiles / tar / directory (own and foreign encodings); containers regenerated under their name and reopened in the same process",
              text="Runtime monitoring: for container readers over irregular tile sets (own writers and independent encoders incl. PMTiles runs whose middle tiles leave the bounding box of the run's ends), the converting reader and every pipeline operation, all tiles a source returns must lie inside its advertised per-level boxes; derived-coverage formats must advertise exactly the bounding box of the stored tiles.",
              note="'Can return' is explored, not enumerated: probe set (stored, neighbours, rings, all of zoom<=3, random) and streams over widened boxes.", ref="4/C03"),
  "C04": dict(tech="differential conversion monitor: 3 source compressions x {keep,none,gzip,brotli} x force x 5 target formats on genuinely compressed payload classes; output decoded with independent gzip/brotli; metadata through reader and independent decoder",
@@ -46,7 +46,7 @@ P.update({
  "C07": dict(tech="black-box HTTP monitor with canary files: real binary with -s <folder|tar> (with/without prefix), raw request targets from a segment alphabet, canaries outside the root (plain, only-precompressed, behind a symlinked directory); thorough repeats it against the release build of the binary",
              text="Runtime monitoring: request targets built from {file, dir, '.', '..', empty, %2e%2e, %2E%2e, ..%2f, %2f, ..;, canary names, absolute-path components, long name} up to length 5, plus //abs and ///abs forms, are sent raw; no response (raw or decoded) may contain a canary token, a 200 body must be the content of a file inside the root, lexically escaping and absolute targets must not be answered 200, every response must be complete.",
              note="Canaries cover the scratch tree around the root; symlinks are out of scope.", ref="4/C07"),
- "C08": dict(tech="sequential first-source model over 2..4 sources (memory / real files, mixed compression, filters, sources that go Pending on open / read); lookups, streams, declared compression, coverage = union",
+ "C08": dict(tech="sequential first-source model over 2..4 sources (memory / real files, mixed compression, filters, sources that go Pending on open / read, later sources whose reads fail under earlier tiles); lookups, streams, declared compression, coverage = union",
              text="Runtime monitoring: overlays of generated sources with payload 's<i>:z/x/y' really compressed per source; every probed coordinate and streamed box is compared (after decoding with the declared compression) with the first listed source holding the tile; advertised coverage must equal the union of the sources' coverages; building and streaming must not fail.",
              note="Byte identity is not demanded, only identity after decoding with the declared compression.", ref="4/C08"),
  "C09": dict(tech="sequential filter model (zoom range, tile box of the geographic bbox via independent Mercator model with tolerance band, chains = intersection); all (min,max) pairs; invalid-argument table",
@@ -58,7 +58,7 @@ P.update({
  "C11": dict(tech="canonical-form model: decode/re-encode round trip of generated tiles; join model for vectortiles_update_properties with a generated CSV (merge/replace x remove_non_matching x include_id)",
              text="Runtime monitoring: (a) VectorTile::from_blob -> to_blob on tiles from the independent encoder (table duplicates/unused entries, int64/sint64/uint64 extremes, -0.0, Unicode, UNKNOWN geometry, ids to 2^64-1) must preserve the canonical content; (b) update_properties must leave other layers untouched and keep id, geometry type, geometry bytes and order of retained features, with property maps equal to the join model (lookups and streams).",
              note="CSV cell typing follows the data-file reader (bool / double / int / string).", ref="4/C11"),
- "C12": dict(level="fault_enumeration", tech="fault enumeration on the recorded write trace: TraceWriter (DataWriterTrait) -> every operation prefix + byte cuts -> real reader must reject or return every tile intact (and declare their compression); plus syscall level: strace log of the real file writer / `versatiles convert` (fresh path and over an existing container) replayed prefix by prefix",
+ "C12": dict(level="fault_enumeration", tech="fault enumeration on the recorded write trace: TraceWriter (DataWriterTrait) -> every operation prefix + byte cuts + one failing operation -> real reader must reject or return every tile intact (and declare their compression); plus syscall level: strace log of the real file writer / `versatiles convert` (fresh path and over an existing container) replayed prefix by prefix",
              text="Fault enumeration: for each recorded trace (both formats, all compressions, one PMTiles/versatiles trace with > 16384 tiles) every prefix of the operation sequence and byte-granular cuts of short and final operations are materialised as file images (unwritten regions = zeros) and opened with the real reader; Ok requires every source tile intact. Exhaustive per trace in the operation-prefix dimension (thinned only for the two huge traces).",
              note="Crash model: completed operations + prefix of the interrupted one, in program order.", ref="4/C12"),
 })
@@ -67,7 +67,7 @@ P.update({
  "C17": dict(tech="round-trip monitors: generated JSON values -> stringify -> own parser + strict RFC 8259 reference parser + serde_json; generated TileJSON documents -> 4 container writers -> readers; served tiles.json over HTTP from the real binary; Miri flavour in thorough",
              text="Runtime monitoring: (a) JSON values with strings and keys over all of Unicode (control characters, quotes, backslashes, U+2028/9, non-BMP), extreme finite numbers and nesting to depth 64 must satisfy parse(stringify(v)) == v and be read with the same meaning by a strict RFC 8259 parser (and serde_json); (b) TileJSON documents expressible by the model, written into versatiles / pmtiles / tar / directory containers, must come back unchanged except for narrowed bounds / zoom range; (c) served tiles.json must be valid JSON carrying the metadata, the tiles template and bounds / zooms never wider than the coverage.",
              note="serde_json lacks float_roundtrip: numbers beyond 1e290 are checked with the harness's strict parser only. Server-owned keys: tiles, type, name, format, bounds, minzoom, maxzoom, tilejson.", ref="4/C17"),
- "C19": dict(tech="guarded-execution fuzz monitor: mutation + random + structured adversarial inputs into 12 decoding entry points, in sharded child processes with panic capture, abort attribution, a counting global allocator and a 2 MiB stack; ASan and release flavours in thorough",
+ "C19": dict(tech="guarded-execution fuzz monitor: mutation + random + structured adversarial inputs into 12 decoding entry points (a sample also through `versatiles probe` of the real binary), in sharded child processes with panic capture, abort attribution, a counting global allocator and a 2 MiB stack; ASan and release flavours in thorough",
              text="Runtime monitoring: ~10^5 inputs per quick run (random bytes, 1..4 stacked mutations of valid encodings incl. length / offset field corruption and multi-byte UTF-8 insertion, semantic SQL / member-name / directory-entry corruptions, self-referencing PMTiles leaf directories, announced lengths up to 2^63, nesting depth 256) are fed to parse_json_str, TileJSON::try_from, read_csv_iter, parse_vpl, PipelineFactory::operation_from_vpl (+ CSV data file), VectorTile::from_blob, and the five container readers (open + single-tile lookups). Oracle: Ok or Err — never a panic, an abort / stack overflow of the child, or a single allocation request / peak growth above 1 GiB.",
              note="A batch exceeding its 30 s watchdog is killed, counted and excluded (CPU time is not part of the statement). Signatures: entry | file | hash of the source line | message class.", ref="4/C19"),
 })
